@@ -68,6 +68,7 @@ pub fn replay(property: &str, part: &str, case: &serde_json::Value) -> Option<Re
         ("C16", "over-the-wire") => replay_part(&c16::OverTheWire, case, 1),
         ("C18", "many-peers") => replay_part(&c18::ManyPeers, case, 1),
         ("C18", "first-contact-race") => replay_part(&c18::FirstContactRace, case, 3),
+        ("C18", "over-network") => replay_part(&c18::OverNetwork, case, 1),
         ("C18", "cancel-storm") => replay_part(&c18::CancelStorm, case, 1),
         ("C09", "disconnect-under-readers") => replay_part(&c09::DisconnectUnderReaders, case, 3),
         ("C05", "close-notice-race") => replay_part(&c05::CloseNoticeRace, case, 3),
